@@ -43,14 +43,17 @@ EXPECTED_CLOSURE = {
     'Atm_handleMessage_k0_0': ['encryption', 'keysBeingAuthenticated', 'keysBeingDistrusted', 'promise'],
     'Atm_makeTrustDecisions_k0': ['encryption', 'keyIdsForDistrusting', 'promise'],
     'Atm_authenticate_k0': ['encryption', 'keyIds', 'promise'], 'Atm_authenticate_k0_0': ['encryption', 'keyIds', 'promise'],
-    'Atm_authenticate_k0_0_0': ['encryption', 'keyIds', 'promise'],
+    'Atm_authenticate_k0_0_0': ['encryption', 'promise'],     # keyIds too in the code as it is (optional: HAS_Atm_authenticate_k0_0_0_keyIds)
     'Atm_distrust_k0': ['encryption', 'keyIds', 'promise'],
     'Atm_makePostponedTrustDecisions_k0': ['encryption', 'promise'],
     'Atm_makePostponedTrustDecisions_k0_0': ['encryption', 'keysBeingAuthenticated', 'keysBeingDistrusted', 'promise'],
 }
 # the closure of makePostponedTrustDecisions' first continuation after the repair proposed for finding C18-F1
 REPAIRED_CLOSURE = {'Atm_makePostponedTrustDecisions_k0': ['encryption', 'senderKeyIds', 'promise']}
+# what the lemma harnesses hand to a continuation for its OWN parameters (the answer of the operation it was registered on)
+OWN_ARGS = {'senderKeyTrustLevel': 'stl', 'securityPolicy': 'policy', 'keysForPostponedTrustDecisions': '&R', 'modifiedKeys': '&M'}
 STORAGE_OPS = ['TrustManager_trustLevel', 'TrustManager_setTrustLevel_keys', 'TrustManager_setTrustLevel_owners', 'TrustManager_securityPolicy',
+               'Storage_setTrustLevel_keys', 'Storage_setTrustLevel_owners', 'Storage_trustLevel',
                'Storage_addKeysForPostponedTrustDecisions', 'Storage_removePostponedBySenderKeys', 'Storage_removePostponedByKeyIds', 'Storage_removeAllPostponed',
                'Storage_keysForPostponedTrustDecisions']
 GHOST_SCALARS = ['g_e', 'g_o', 'g_k', 'g_s', 'gh_own_jid', 'gh_own_bare', 'gh_tme', 'gh_named_t', 'gh_named_d', 'g_i', 'g_j', 'g_i2', 'g_j2',
@@ -70,12 +73,19 @@ def params_of(signature):
 
 
 def harness(cname, signature, havoc):
+    """every scalar parameter is nondeterministic; every pointer parameter points to an object of its own with nondeterministic
+    content (the contract's is_fresh clauses may replace it)"""
     ret, name, ps = params_of(signature)
     decls, args = [], []
     for p in ps:
         mm = re.match(r'(.*?)(\w+)$', p)
-        decls.append('%s%s;' % (mm.group(1), mm.group(2)))
-        args.append(mm.group(2))
+        t, n = mm.group(1), mm.group(2)
+        if t.strip().endswith('*'):
+            base = re.sub(r'\bconst\b', '', t).replace('*', '').strip()
+            decls.append('%s %s_obj; %s%s = &%s_obj;' % (base, n, t, n, n))
+        else:
+            decls.append('%s%s;' % (t, n))
+        args.append(n)
     return 'void h_%s(void) { %s %s %s(%s); }\n' % (cname, havoc, ' '.join(decls), cname, ', '.join(args))
 
 
@@ -87,28 +97,65 @@ def build(work, tier):
     src = os.path.join(REPO, SRC)
     specs, texts, sigs, conts_all, order, closure_defines = {}, {}, {}, [], [], []
 
-    def lower(tgt, cname, specfile, label):
-        specs[cname] = b.spec(specfile)
-        texts[cname] = b.lower(tgt, specs[cname])
+    # ---- the round of authenticate carries K along in its closures.  The specifications name the member `keyIds`; any OTHER
+    # closure member of a container type that the code carries along the authenticate chain (e.g. a hoisted keyIds.values())
+    # gets a generated clause pair: where a continuation is registered with it, the member must hold exactly K's key ids /
+    # owners / pairs (ensures of the registering function); the continuation may rely on that (requires).  A list that is
+    # NOT K's (e.g. "the keys whose level was modified") fails the ensures where it is put into the closure.
+    CARRIED = {'KeyList': ('KS_VALUES_ARE({x}, G_auth.keys)', 'key_id_list'), 'OwnerList': ('KS_OWNERS_ARE({x}, G_auth.keys)', 'owner_list'),
+               'KeySet': ('(KS_EQ({x}, G_auth.keys) && KS_WF({x}))', 'key_set')}
+
+    def carried(cont):
+        if not cont.name.startswith('Atm_authenticate_'):
+            return []
+        known = set(EXPECTED_CLOSURE.get(cont.name, ['promise'])) | {'keyIds'}
+        return [c for c in cont.captures if c['name'] not in known and c['ctype'] in CARRIED]
+
+    def lower(tgt, cname, specfile, label, cont=None):
+        from vlib import unit as unitmod
+        raw = b.lower(tgt, None, keep_markers=True)
+        lw = b.last
+        sp = b.spec(specfile)
+        extra_req, extra_ens = [], []
+        for c in (carried(cont) if cont else []):
+            extra_req.append('__CPROVER_requires(%s)' % CARRIED[c['ctype']][0].format(x='(*%s)' % c['name']))
+        for child in lw.conts:
+            for c in carried(child):
+                sp.labels.append('post.the_%s_%s_put_into_the_closure_of_the_next_continuation_is_exactly_that_of_the_keys_handed_to_authenticate' % (CARRIED[c['ctype']][1], c['name']))
+                extra_ens.append('__CPROVER_ensures(R_%s.reg == __CPROVER_old(R_%s.reg) || %s)' % (child.name, child.name, CARRIED[c['ctype']][0].format(x='R_%s.%s' % (child.name, c['name']))))
+        if extra_req or extra_ens:
+            lines = sp.contract.split('\n')
+            k = next(i for i, l_ in enumerate(lines) if l_.startswith('__CPROVER_assigns'))
+            sp.contract = '\n'.join(lines[:k] + extra_req + lines[k:] + extra_ens)
+        try:
+            text = cxx2c.apply_splices(raw, sp.contract, sp.loops)
+        except cxx2c.LoopMismatch as lm:
+            unitmod.LOOP_MISMATCH[cname] = str(lm)
+            text = cxx2c.apply_splices(raw, sp.contract, {})
+        text = re.sub(r'/\*@(CONTRACT|LOOP\d+)@\*/\n?', '', text)
+        specs[cname] = sp
+        texts[cname] = text
         b.functions[-1]['function'] = label
-        sigs[cname] = b.last.signature
+        sigs[cname] = lw.signature
         order.append(cname)
-        return b.last
+        return lw
 
     def lower_conts(parent_lw, parent_label, root):
         for cont in parent_lw.conts:
             got = [c['name'] for c in cont.captures]
+            closure_defines.extend('HAS_%s_%s' % (cont.name, g) for g in got)
             want = EXPECTED_CLOSURE.get(cont.name, ['promise'])
             if cont.name in REPAIRED_CLOSURE and sorted(got) == sorted(REPAIRED_CLOSURE[cont.name]):
                 closure_defines.append('CLOSURE_HAS_SENDER_KEYS')
-            elif got != want:
+            elif not set(want) <= set(got):
+                # the specifications name these closure members; additional members are fine (the contracts do not speak about them)
                 raise cxx2c.Unsupported('the closure of %s (lambda at line %s) now holds %s, the unit was written for %s (restructured code)' % (cont.name, cont.pos.split(':')[0], got, want))
             t = Target(SRC, A, 'operator()', cont.name, this=cont.this_type, extra_params=cont.extra_params(),
                        lowerer_cls=functools.partial(L.C18Lowerer, captures=cont.captures, is_cont=True))
             t.decl = cont.op
             label = '%s::<continuation %s, lambda at line %s>' % (parent_label.split('::<')[0], cont.name[len(root) + 1:], cont.pos.split(':')[0])
             conts_all.append(cont)
-            lw = lower(t, cont.name, cont.name[len('Atm_'):] + '.spec', label)
+            lw = lower(t, cont.name, cont.name[len('Atm_'):] + '.spec', label, cont=cont)
             lower_conts(lw, label, root)
 
     for name, nparams, _ in FUNCS:
@@ -170,20 +217,26 @@ def build(work, tier):
     chain = [c for c in order]
     protos = ''.join(b.prototype(texts[r]) for r in chain)
 
-    # the call of makePostponedTrustDecisions' first continuation with its recorded closure, whatever the closure holds
-    # (class-typed members through local copies)
-    mp0 = next(c for c in conts_all if c.name == 'Atm_makePostponedTrustDecisions_k0')
-    run_mp_k0 = '#define RUN_MP_K0(answer) { %s Atm_makePostponedTrustDecisions_k0(self, answer%s); }\n' % (
-        ' '.join('%s c_%s = R_%s.%s;' % (c['ctype'], c['name'], mp0.name, c['name']) for c in mp0.captures if c['is_class']),
-        ''.join(', ' + ('&c_%s' % c['name'] if c['is_class'] else 'R_%s.%s' % (mp0.name, c['name'])) for c in mp0.captures))
+    # RUN_<continuation>: the call of a continuation with the closure recorded at its registration, whatever the closure holds
+    # (class-typed members through local copies); its own parameters get the answer the lemma harness holds ready (OWN_ARGS)
+    run_macros = ''
+    for cont in conts_all:
+        own = [c for c in cont.op['inner'] if c.get('kind') == 'ParmVarDecl']
+        for c in own:
+            if c.get('name') not in OWN_ARGS:
+                raise cxx2c.Unsupported('continuation %s has the parameter %s, for which the lemma harnesses have no answer (restructured code)' % (cont.name, c.get('name')))
+        args = (['self'] if cont.captures_this else []) + [OWN_ARGS[c['name']] for c in own] + \
+            [('&c_%s' % c['name'] if c['is_class'] else 'R_%s.%s' % (cont.name, c['name'])) for c in cont.captures]
+        run_macros += '#define RUN_%s { %s %s(%s); }\n' % (cont.name, ' '.join('%s c_%s = R_%s.%s;' % (c['ctype'], c['name'], cont.name, c['name']) for c in cont.captures if c['is_class']),
+                                                         cont.name, ', '.join(args))
 
     def lemma(pid, entry, defines=(), finding=None, note=''):
-        c = head + protos + '#define HAVOC_ALL ' + havoc + '\n' + run_mp_k0 + lem
+        c = head + protos + '#define HAVOC_ALL ' + havoc + '\n' + run_macros + lem
         f = b.write('lemma.c', c)
         m = re.search(r'^void %s\(void\)\n\{.*?^\}' % entry, lem, re.M | re.S)
         if not m:
             raise cxx2c.Unsupported('lemma harness %s not found' % entry)
-        called = [r for r in chain if re.search(r'\b%s\(' % re.escape(r), m.group(0).replace('RUN_MP_K0(', 'Atm_makePostponedTrustDecisions_k0('))]
+        called = [r for r in chain if re.search(r'\b%s\(' % re.escape(r), re.sub(r'\bRUN_(\w+)', r'\1(', m.group(0)))]
         p = Proof(pid, f, entry, enforce=None, replace=called, kind='complete', include_dirs=[QT], timeout=600, loop_contracts=False,
                   defines=list(defines) + closure_defines, note=note)
         p.labels = {}
